@@ -1,5 +1,8 @@
 import Ivg.Lemmas.GradQ
-import Ivg.Gen.Tie
+import Ivg.Gen.Tie.DrawOps
+import Ivg.Gen.Tie.GradientFields
+import Ivg.Gen.Tie.Magic
+import Ivg.Gen.Tie.RendererFields
 import Ivg.Obligations
 /-!
 # C15 — gradient paints
@@ -52,6 +55,7 @@ example : ¬ ((0 : ℚ) ≤ -5 / 4 ∧ (-5 / 4 : ℚ) ≤ 1) := by norm_num
     through (0,0), (1,1), (2,0) — for every `x`, including the odd integers (where the value is 1) and
     negative `x`. -/
 theorem clamp_reflect (x : ℚ) (h : ¬ (0 ≤ x ∧ x ≤ 1)) : clamp (α := ℚ) 2 x = tri x := GradQ.clamp_reflect x h
+omit [SqrtQ] in
 /-- the triangle wave in closed form from the integer part: rising on even, falling on odd intervals -/
 theorem tri_of_floor (x : ℚ) (n : ℤ) (hn : ⌊x⌋ = n) : tri x = if n % 2 = 0 then x - n else n + 1 - x :=
   GradQ.tri_of_floor x n hn
@@ -150,6 +154,7 @@ theorem premul_valid (shape spread : UInt8) (m : Aff3 ℚ) (s0 s1 : Stop ℚ) (r
 
 /-! ## the gradients the renderer builds -/
 
+omit [SqrtQ] in
 /-- Clause "the offset obtained by mapping the pixel centre through the viewBox-to-gradient matrix composed
     with the pixel-to-viewBox map": the matrix `initGradient` builds (`pixMatrix`), applied to pixel
     coordinates, is the NREG matrix `[a b c; d e f]` applied to `(px/scaleX − biasX, py/scaleY − biasY)`,
@@ -180,6 +185,11 @@ theorem gradient_at_spec (z : Renderer ℚ ℚ) (rgba : RGBA) (g : Gradient ℚ)
         ((g.at x y).r ≤ (g.at x y).a ∧ (g.at x y).g ≤ (g.at x y).a ∧ (g.at x y).b ≤ (g.at x y).a) :=
   GradQ.gradient_at_spec z rgba g h
 
+-- non-vacuity: a concrete register state (two-stop linear gradient in CREG/NREG[10,11], matrix in NREG[4…9])
+-- whose gradient value `initGradient` accepts
+example : ∃ g, GradQ.exampleState.initGradient (encodeGradient 10 10 0 1 2) = some g :=
+  Option.isSome_iff_exists.mp GradQ.example_accepted
+
 /-- what the raw offset is (linear: x coordinate; radial: `sqrt` of the squared distance from the origin,
     `sqrt` being the instance's parameter) -/
 theorem rawOffset_eq (g : Gradient ℚ) (x y : Int) :
@@ -200,8 +210,6 @@ theorem rawOffset_eq (g : Gradient ℚ) (x y : Int) :
   the origin" holds to the extent that this function is the square root.
 * `Spec.Grad.sample` breaks ties at a stop towards the range ENDING there (as `findRange` does); since both
   neighbouring ranges give the stop's colour there (`at_stop`), this is not observable.
-* Non-vacuity of `gradient_at_spec` (a concrete register state accepted by `initGradient`) is exercised by
-  the differential suite, not by an `example` here.
 -/
 
 end Ivg.Props.C15
